@@ -241,6 +241,15 @@ def check(ctx):
                    "contact that answers keeps its place (return False)",
                    detail="" if ok else f"probe of same contact={probed}; handler only for timeout/remote error={failed} ({names}); "
                                        f"successful probe returns False={keeps}", func=tq, key=f"C11-D3/EVICT|{tq}|probe")
+    # what "RemoteException" stands for in that handler: an error REPLY of the probed contact.  A local condition (our own transport is closed, a
+    # datagram did not decode, a bucket is full) that became a subclass would be taken for a dead contact and evict a live one.
+    rex = prog.cls("lbry.dht.error.RemoteException")
+    subs = sorted(c.qualname for c in prog.subclasses(rex))
+    ctx.ob("C11-D3/EVICT", not subs, f"{rex.module.relpath}:{rex.node.lineno}", "RemoteException has no subclass: the probe handler catches error replies (and timeouts) only",
+           detail="" if not subs else f"also caught as a failed probe: {subs}", key="C11-D3/EVICT|RemoteException|leaf")
+    bases = [getattr(b, "qualname", b) for b in rex.bases]
+    ctx.ob("C11-D3/EVICT", bases == ["lbry.dht.error.BaseKademliaException"], f"{rex.module.relpath}:{rex.node.lineno}", "RemoteException derives from BaseKademliaException only",
+           detail=str(bases), key="C11-D3/EVICT|RemoteException|base")
     # ------------------------------------------------------------------ D4 closest-K
     fc = ctx.fa(f"{TR}.find_close_peers")
     fq = fc.fi.qualname
